@@ -1,5 +1,5 @@
 (* C16 — the client-id allow-list is enforced on every endpoint. *)
-From TSS Require Import Http proofs.HttpProps.
+From TSS Require Import Http proofs.HttpProps proofs.HttpReach proofs.HttpLib2.
 Open Scope N_scope.
 
 (* an otherwise valid request on any of the four endpoints carrying an unlisted id: exactly
@@ -28,4 +28,18 @@ Proof. exact listed_transparent. Qed.
 Example C16_empty_list_refuses_everyone : forall c, listed (Some []) c = false.
 Proof. reflexivity. Qed.
 Example C16_no_list_serves_everyone : forall c, listed None c = true.
+Proof. reflexivity. Qed.
+
+(* at the level of whole histories, for ANY backend, ANY store contents and ANY HTTP history — no
+   assumption on ids at all, this is an equality of programs: the responses to the requests that carry a
+   listed client id (or no usable id) are exactly the responses of a server WITHOUT a list to which the
+   requests of unlisted clients are never sent, and both servers end in the same store.  `hsel`
+   picks the responses of the requests satisfying the predicate. *)
+Theorem C16_allow_list_transparent : forall B cfg allow h s,
+  let keep := fun re : hreq * env => match rq_cid (fst re) with COk c => listed allow c | _ => true end in
+  hsel keep h (fst (hrun B cfg allow s h)) = fst (hrun B cfg None s (filter keep h)) /\
+  snd (hrun B cfg allow s h) = snd (hrun B cfg None s (filter keep h)).
+Proof. intros. apply allow_list_transparent. Qed.
+Example C16_hsel_reading : forall f re h r rs,
+  hsel f (re :: h) (r :: rs) = if f re then r :: hsel f h rs else hsel f h rs.
 Proof. reflexivity. Qed.
